@@ -515,6 +515,7 @@ package sstables
 
 //@ func (*DiskKeyIndex).findAt
 //@   props C03
+//@   bounded conformance_trusted executable conformance of the trusted library contracts (contracts-ext/stdlib.gvc): hash Write/Sum, bloom filter add/contains, buffer pool Get, mmap ReadAt/Len, io.ReadFull, os.ReadDir order / Rename, filepath Base/Join, ParseUint, compressor round trips, protobuf decode touches only its message; sampled inputs, results only (not the modifies clauses)
 //@   replay table_model
 //@   requires dxCacheOK(s) && s.reader != nil
 //@   ensures [cache-stays-valid] dxCacheOK(s)
@@ -632,6 +633,7 @@ package sstables
 
 //@ func checksumValue
 //@   props C09
+//@   bounded conformance_trusted executable conformance of the trusted library contracts (contracts-ext/stdlib.gvc): hash Write/Sum, bloom filter add/contains, buffer pool Get, mmap ReadAt/Len, io.ReadFull, os.ReadDir order / Rename, filepath Base/Join, ParseUint, compressor round trips, protobuf decode touches only its message; sampled inputs, results only (not the modifies clauses)
 //@   ensures [crc-of-the-bytes] r1 == nil && r0 == crcOf(content(value))
 //@   modifies nothing
 
